@@ -78,14 +78,15 @@ func clientCheck(r *core.Run, prop string) int {
 		r.Inconclusive("only %d evaluations (%v)", evals, s.Stats)
 	}
 	cov := map[string]any{
-		"evaluations":         evals,
-		"distinct_nontrivial": len(s.Distinct),
-		"rule":                rule,
-		"samples":             s.Samples,
-		"packages_driven":     s.Ran,
-		"not_generated":       s.NotGen,
-		"not_runnable":        s.NotRunnable,
-		"event_counts":        s.Stats,
+		"evaluations":                evals,
+		"distinct_nontrivial":        len(s.Distinct),
+		"rule":                       rule,
+		"samples":                    s.Samples,
+		"packages_driven":            s.Ran,
+		"not_generated":              s.NotGen,
+		"not_runnable":               s.NotRunnable,
+		"event_counts":               s.Stats,
+		"second_opinion_kin_openapi": map[string]any{"agree_valid": s.Stats["second_opinion_agree_valid"], "agree_invalid": s.Stats["second_opinion_agree_invalid"], "only_kin_rejects": s.Stats["second_opinion_only_kin_rejects"], "only_mine_rejects": s.Stats["second_opinion_only_mine_rejects"], "disagreement_samples": s.Notes},
 	}
 	return r.Finish(cov, []string{"C09 domain (DESIGN §11): path values non-empty and '/'-free, required arrays non-empty, optional arrays unset or non-empty, header values visible ASCII without surrounding blanks, finite floats, years 1-9999, times compared as instants", "the tap hands the client's request object to API.ServeHTTP; the wire validator re-parses the request URI"})
 }
